@@ -5,6 +5,7 @@ package main
 import (
 	"fmt"
 	"go/ast"
+	"go/constant"
 	"go/token"
 	"go/types"
 	"math/rand"
@@ -18,17 +19,131 @@ import (
 	"verifharness/fw"
 )
 
-func findStruct(p *packages.Package, name string) (*types.Struct, *types.Named) {
-	o := p.Types.Scope().Lookup(name)
+const resolvePath = "deps.dev/util/resolve"
+
+// resolveIface returns the interface type util/resolve.<name> AS SEEN FROM p
+// (each package is loaded in its own type universe, so the object must come
+// from p's own import graph for types.Implements to mean anything).
+func resolveIface(p *packages.Package, name string) *types.Interface {
+	var tp *types.Package
+	if p.PkgPath == resolvePath {
+		tp = p.Types
+	} else if ip := p.Imports[resolvePath]; ip != nil {
+		tp = ip.Types
+	}
+	if tp == nil {
+		return nil
+	}
+	o := tp.Scope().Lookup(name)
 	if o == nil {
-		return nil, nil
+		return nil
 	}
-	n, ok := o.Type().(*types.Named)
+	it, _ := o.Type().Underlying().(*types.Interface)
+	return it
+}
+
+// implementers lists p's own named struct types T such that T or *T implements
+// it, in name order. This is how the translator finds "the resolver struct" and
+// "the local client": by what the type IS, not by what it is called.
+func implementers(p *packages.Package, it *types.Interface) []*types.Named {
+	var out []*types.Named
+	if it == nil {
+		return nil
+	}
+	sc := p.Types.Scope()
+	for _, n := range sc.Names() {
+		tn, ok := sc.Lookup(n).(*types.TypeName)
+		if !ok || tn.IsAlias() {
+			continue
+		}
+		nt, ok := tn.Type().(*types.Named)
+		if !ok {
+			continue
+		}
+		if _, isStruct := nt.Underlying().(*types.Struct); !isStruct {
+			continue
+		}
+		if types.Implements(nt, it) || types.Implements(types.NewPointer(nt), it) {
+			out = append(out, nt)
+		}
+	}
+	return out
+}
+
+// derefNamed: the named type behind t or *t (instantiations mapped to their origin).
+func derefNamed(t types.Type) *types.Named {
+	if t == nil {
+		return nil
+	}
+	if p, ok := t.(*types.Pointer); ok {
+		t = p.Elem()
+	}
+	n, _ := t.(*types.Named)
+	if n != nil {
+		n = n.Origin()
+	}
+	return n
+}
+
+// deadNodes: statements that can never run because an if condition is a
+// compile-time constant (`if debug { .. }` with `const debug = false`, the else
+// branch of a constant-true condition). go/types has folded the condition.
+func deadNodes(p *packages.Package, body ast.Node) map[ast.Node]bool {
+	dead := map[ast.Node]bool{}
+	ast.Inspect(body, func(n ast.Node) bool {
+		is, ok := n.(*ast.IfStmt)
+		if !ok || is.Init != nil {
+			return true
+		}
+		tv, ok := p.TypesInfo.Types[is.Cond]
+		if !ok || tv.Value == nil || tv.Value.Kind() != constant.Bool {
+			return true
+		}
+		if constant.BoolVal(tv.Value) {
+			if is.Else != nil {
+				dead[is.Else] = true
+			}
+		} else {
+			dead[is.Body] = true
+		}
+		return true
+	})
+	return dead
+}
+
+// storesIntoCache: call is a method call on an LRU cache whose (generic) method
+// has a parameter of the cache's VALUE type parameter, i.e. it puts a value in
+// (today: Add(k K, v V); Get(k K) has no such parameter).
+func storesIntoCache(p *packages.Package, call *ast.CallExpr) bool {
+	sel, ok := ast.Unparen(call.Fun).(*ast.SelectorExpr)
 	if !ok {
-		return nil, nil
+		return false
 	}
-	s, _ := n.Underlying().(*types.Struct)
-	return s, n
+	s := p.TypesInfo.Selections[sel]
+	if s == nil || s.Kind() != types.MethodVal || !isLruCacheType(ptrTo(s.Recv())) {
+		return false
+	}
+	fn, ok := s.Obj().(*types.Func)
+	if !ok {
+		return false
+	}
+	sig, ok := fn.Origin().Type().(*types.Signature)
+	if !ok {
+		return false
+	}
+	for i := 0; i < sig.Params().Len(); i++ {
+		if tp, ok := sig.Params().At(i).Type().(*types.TypeParam); ok && tp.Index() >= 1 {
+			return true
+		}
+	}
+	return false
+}
+
+func ptrTo(t types.Type) types.Type {
+	if _, ok := t.(*types.Pointer); ok {
+		return t
+	}
+	return types.NewPointer(t)
 }
 
 // isClientType: the interface deps.dev/util/resolve.Client.
@@ -101,10 +216,18 @@ func genResolverShared(repo string) (string, error) {
 	var fillerReads, fillerOther [][]string
 	for _, p := range pkgs {
 		sysn := p.Types.Name()
-		st, named := findStruct(p, "resolver")
-		isResolverPkg := sysn == "npm" || sysn == "maven" || sysn == "pypi"
-		if isResolverPkg && st == nil {
-			return "", fmt.Errorf("%s: no struct type resolver", p.PkgPath)
+		// the resolver struct of a resolver package: its struct type that implements
+		// resolve.Resolver (whatever it is called)
+		isResolverPkg := p.PkgPath != resolvePath
+		var st *types.Struct
+		var named *types.Named
+		if isResolverPkg {
+			impls := implementers(p, resolveIface(p, "Resolver"))
+			if len(impls) != 1 {
+				return "", fmt.Errorf("%s: %d struct types implement resolve.Resolver, want exactly 1", p.PkgPath, len(impls))
+			}
+			named = impls[0]
+			st = named.Underlying().(*types.Struct)
 		}
 		if st != nil && isResolverPkg {
 			for i := 0; i < st.NumFields(); i++ {
@@ -146,23 +269,29 @@ func genResolverShared(repo string) (string, error) {
 					fname = recvName(fd.Recv.List[0].Type) + "." + fname
 				}
 				isInit := fd.Recv == nil && fd.Name.Name == "init"
-				// assignments inside the constructor, before the object is handed out, are construction
-				isCtor := fd.Recv == nil && fd.Name.Name == "NewResolver"
+				// assignments inside a constructor, before the object is handed out, are
+				// construction. A constructor is recognised by what it does: a function
+				// without receiver and without a resolver parameter that creates a
+				// resolver value (composite literal or new).
+				isCtor := fd.Recv == nil && named != nil && createsValueOf(p, fd, named)
 				// functions that fill an LRU cache: which fields of this package's
 				// own structs do they read (directly, closures included)?
 				fills := false
+				dead := deadNodes(p, fd.Body)
 				ast.Inspect(fd.Body, func(n ast.Node) bool {
-					if call, ok := n.(*ast.CallExpr); ok {
-						if sel, ok := ast.Unparen(call.Fun).(*ast.SelectorExpr); ok && sel.Sel.Name == "Add" {
-							if t := p.TypesInfo.TypeOf(sel.X); t != nil && strings.Contains(relType(t), "internal/lru.Cache") {
-								fills = true
-							}
-						}
+					if n != nil && dead[n] {
+						return false
+					}
+					if call, ok := n.(*ast.CallExpr); ok && storesIntoCache(p, call) {
+						fills = true
 					}
 					return true
 				})
 				if fills {
 					ast.Inspect(fd.Body, func(n ast.Node) bool {
+						if n != nil && dead[n] {
+							return false // a read that can never execute decides nothing
+						}
 						sel, ok := n.(*ast.SelectorExpr)
 						if !ok {
 							return true
@@ -339,7 +468,43 @@ func genResolverShared(repo string) (string, error) {
 	return b.String(), nil
 }
 
-// genLruCaps extracts the capacities passed to lru.New in pypi.NewResolver.
+// createsValueOf: fd has no parameter of type T / *T and its body contains a
+// composite literal of T or new(T).
+func createsValueOf(p *packages.Package, fd *ast.FuncDecl, T *types.Named) bool {
+	if fd.Type.Params != nil {
+		for _, fl := range fd.Type.Params.List {
+			if derefNamed(p.TypesInfo.TypeOf(fl.Type)) == T.Origin() {
+				return false
+			}
+		}
+	}
+	found := false
+	ast.Inspect(fd.Body, func(n ast.Node) bool {
+		switch x := n.(type) {
+		case *ast.CompositeLit:
+			if derefNamed(p.TypesInfo.TypeOf(x)) == T.Origin() {
+				found = true
+			}
+		case *ast.CallExpr:
+			if id, ok := ast.Unparen(x.Fun).(*ast.Ident); ok && len(x.Args) == 1 {
+				if _, isB := p.TypesInfo.Uses[id].(*types.Builtin); isB && id.Name == "new" && derefNamed(p.TypesInfo.TypeOf(x.Args[0])) == T.Origin() {
+					found = true
+				}
+			}
+		}
+		return !found
+	})
+	return found
+}
+
+// genLruCaps extracts the capacity of every LRU cache the pypi package creates
+// and the struct field the cache ends up in. A creation is a call of a function
+// of the lru package that returns a cache (object identity, not the name New);
+// the capacity is its integer argument as folded by go/types (literal, named
+// constant, constant expression). The field is found through the composite
+// literal element or assignment that receives the call's value, directly or via
+// one local variable. A cache that cannot be attributed is listed under a name
+// no field has, so that lru_caps_cover_cache_fields fails instead of passing.
 func genLruCaps(repo string) (string, error) {
 	p, err := fw.LoadPkg(filepath.Join(repo, "util/resolve/pypi"))
 	if err != nil {
@@ -349,44 +514,143 @@ func genLruCaps(repo string) (string, error) {
 		field string
 		n     int64
 	}
-	var rows []row
+	type creation struct {
+		call  *ast.CallExpr
+		n     int64
+		field string
+	}
+	var creations []*creation
+	byCall := map[ast.Expr]*creation{}
+	var genErr error
 	for _, f := range p.Syntax {
 		ast.Inspect(f, func(n ast.Node) bool {
-			kvx, ok := n.(*ast.KeyValueExpr)
+			call, ok := n.(*ast.CallExpr)
 			if !ok {
-				return true
-			}
-			call, ok := kvx.Value.(*ast.CallExpr)
-			if !ok || len(call.Args) != 1 {
 				return true
 			}
 			fun := ast.Unparen(call.Fun)
 			switch ix := fun.(type) {
 			case *ast.IndexExpr:
-				fun = ix.X
+				fun = ast.Unparen(ix.X)
 			case *ast.IndexListExpr:
-				fun = ix.X
+				fun = ast.Unparen(ix.X)
 			}
-			sel, ok := fun.(*ast.SelectorExpr)
-			if !ok || sel.Sel.Name != "New" {
+			var id *ast.Ident
+			switch x := fun.(type) {
+			case *ast.SelectorExpr:
+				id = x.Sel
+			case *ast.Ident:
+				id = x
+			default:
 				return true
 			}
-			fn, ok := p.TypesInfo.Uses[sel.Sel].(*types.Func)
+			fn, ok := p.TypesInfo.Uses[id].(*types.Func)
 			if !ok || fn.Pkg() == nil || !strings.HasSuffix(fn.Pkg().Path(), "pypi/internal/lru") {
 				return true
 			}
-			v, ok := fw.EvalInt(p, call.Args[0])
-			if !ok {
+			sig, ok := fn.Type().(*types.Signature)
+			if !ok || sig.Recv() != nil || sig.Results().Len() != 1 || !isLruCacheType(p.TypesInfo.TypeOf(call)) {
 				return true
 			}
-			if id, ok := kvx.Key.(*ast.Ident); ok {
-				rows = append(rows, row{id.Name, v})
+			var caps []int64
+			for _, a := range call.Args {
+				if v, ok := fw.EvalInt(p, a); ok {
+					caps = append(caps, v)
+				}
 			}
+			if len(caps) != 1 || len(call.Args) != 1 {
+				pos := p.Fset.Position(call.Pos())
+				genErr = fmt.Errorf("%s:%d: LRU cache created with a capacity that is not one compile-time integer constant", filepath.Base(pos.Filename), pos.Line)
+				return true
+			}
+			c := &creation{call: call, n: caps[0]}
+			creations = append(creations, c)
+			byCall[call] = c
 			return true
 		})
 	}
+	if genErr != nil {
+		return "", genErr
+	}
+	fieldOfKey := func(k ast.Expr) string {
+		if id, ok := k.(*ast.Ident); ok {
+			if v, ok := p.TypesInfo.Uses[id].(*types.Var); ok && v.IsField() {
+				return v.Name()
+			}
+		}
+		return ""
+	}
+	fieldOfLhs := func(e ast.Expr) string {
+		if sel, ok := ast.Unparen(e).(*ast.SelectorExpr); ok {
+			if s := p.TypesInfo.Selections[sel]; s != nil && s.Kind() == types.FieldVal {
+				return s.Obj().Name()
+			}
+		}
+		return ""
+	}
+	viaVar := map[types.Object]*creation{}
+	creationOf := func(e ast.Expr) *creation {
+		e = ast.Unparen(e)
+		if c := byCall[e]; c != nil {
+			return c
+		}
+		if id, ok := e.(*ast.Ident); ok {
+			return viaVar[p.TypesInfo.Uses[id]]
+		}
+		return nil
+	}
+	for pass := 0; pass < 2; pass++ { // pass 0 also learns the local variables, pass 1 follows them
+		for _, f := range p.Syntax {
+			ast.Inspect(f, func(n ast.Node) bool {
+				switch x := n.(type) {
+				case *ast.KeyValueExpr:
+					if c := creationOf(x.Value); c != nil && c.field == "" {
+						c.field = fieldOfKey(x.Key)
+					}
+				case *ast.AssignStmt:
+					if len(x.Lhs) != len(x.Rhs) {
+						return true
+					}
+					for i, r := range x.Rhs {
+						c := creationOf(r)
+						if c == nil {
+							continue
+						}
+						if fn := fieldOfLhs(x.Lhs[i]); fn != "" {
+							if c.field == "" {
+								c.field = fn
+							}
+						} else if id, ok := ast.Unparen(x.Lhs[i]).(*ast.Ident); ok {
+							if o := p.TypesInfo.ObjectOf(id); o != nil {
+								viaVar[o] = c
+							}
+						}
+					}
+				case *ast.ValueSpec:
+					for i, n := range x.Names {
+						if i < len(x.Values) {
+							if c := creationOf(x.Values[i]); c != nil {
+								if o := p.TypesInfo.Defs[n]; o != nil {
+									viaVar[o] = c
+								}
+							}
+						}
+					}
+				}
+				return true
+			})
+		}
+	}
+	var rows []row
+	for _, c := range creations {
+		if c.field == "" {
+			pos := p.Fset.Position(c.call.Pos())
+			c.field = fmt.Sprintf("(cache created at %s:%d, not stored in a field)", filepath.Base(pos.Filename), pos.Line)
+		}
+		rows = append(rows, row{c.field, c.n})
+	}
 	if len(rows) == 0 {
-		return "", fmt.Errorf("no lru.New call with a constant capacity found in pypi")
+		return "", fmt.Errorf("no LRU cache creation found in pypi")
 	}
 	var b strings.Builder
 	b.WriteString("/-! Capacities of the LRU caches created by pypi.NewResolver. -/\nnamespace DepsDev.Gen.C05LruCaps\n\n")
